@@ -28,6 +28,7 @@ class Program(object):
         self.by_name = {}      # plain name -> [Func]
         self.globals = []
         self.records = {}
+        self.bitfields = {}
         self.enums = {}
         self.protos = {}
         counts = {}
@@ -46,6 +47,8 @@ class Program(object):
             self.globals.extend(u.globals)
             for k, v in u.records.items():
                 self.records.setdefault(k, v)
+            for k, v in getattr(u, 'bitfields', {}).items():
+                self.bitfields.setdefault(k, v)
             self.enums.update(u.enums)
             for k, v in u.protos.items():
                 self.protos.setdefault(k, v)
